@@ -408,4 +408,39 @@ def discovery_reconstructs_the_database(k: int, m: int) -> bool:
             return t.result() == want
 
 
+@harness(pre=['0 <= wide <= 1 and 0 <= order <= 1 and 0 <= m <= 2 and 0 <= two <= 1'], family='discovery', twin=True, kernels=K_CLI + ('bumble.gatt_server.Server.add_service', 'bumble.gatt.IncludedServiceDeclaration.__init__'), timeout=(240, 600),
+         bounds='a primary service that includes one or two other services (16- or 128-bit UUID; a secondary service registered before the including one, or a primary service registered only through the inclusion) at ATT_MTU 23, 24, 48: discover_services returns every primary service with pairwise disjoint handle ranges equal to the server\'s, and discover_included_services returns exactly the included services (UUID, start and end handle)')
+def included_services_discovered(wide: int, order: int, m: int, two: int) -> bool:
+    wide, order, m, two = C(wide, 0, 1), C(order, 0, 1), C(m, 0, 2), C(two, 0, 1)
+    with untraced():
+        with detloop.running() as loop:
+            inner = gatt.Service(U128 if wide else U(0x180F), [gatt.Characteristic(U(0x2A19), PR.READ, P.READABLE, b'\x64')], primary=(order != 0))
+            inner2 = gatt.Service(U(0x180A), [gatt.Characteristic(U(0x2A29), PR.READ, P.READABLE, b'm')], primary=False)
+            inc = [inner, inner2] if two else [inner]
+            outer = gatt.Service(U(0x1812), [gatt.Characteristic(U(0x2A4D), PR.READ, P.READABLE, b'r')], included_services=inc)
+            last = gatt.Service(U(0x1800), [gatt.Characteristic(U(0x2A00), PR.READ, P.READABLE, b'n')])
+            services = {0: [inner, outer, last], 1: [outer, last]}[order]
+            client, server, cb, sb, dev = wire(loop, services, [23, 24, 48][m])
+
+            async def run():
+                found = await client.discover_services()
+                incs = {}
+                for sv in found:
+                    incs[sv.handle] = [(i.uuid, i.handle, i.end_group_handle) for i in await client.discover_included_services(sv)]
+                return [(sv.uuid, sv.handle, sv.end_group_handle) for sv in found], incs
+            t = loop.create_task(run())
+            if not _finish(loop, t, 20000) or t.exception() is not None:
+                return False
+            found, incs = t.result()
+            every = [outer, last] + inc
+            prim = sorted(((sv.uuid, sv.handle, sv.end_group_handle) for sv in every if sv.type == gatt.GATT_PRIMARY_SERVICE_ATTRIBUTE_TYPE), key=lambda x: x[1])
+            if found != prim:
+                return False
+            spans = sorted((sv.handle, sv.end_group_handle) for sv in every)
+            if any(a[1] >= b[0] for a, b in zip(spans, spans[1:])) or any(lo > hi for lo, hi in spans):
+                return False                      # service groups never overlap or nest
+            want = [(i.uuid, i.handle, i.end_group_handle) for i in inc]
+            return incs.get(outer.handle) == want and all(v == [] for h, v in incs.items() if h != outer.handle)
+
+
 _flags.int_format_placeholder = True
